@@ -21,16 +21,28 @@ pub enum WKind {
     Fmt,
     /// `core::writeln!(w, "{}", text)`
     FmtLn,
+    /// `ufmt::uwrite!(w, "{}", c)` for every `char` of the text (the `uWrite::write_char` path)
+    UfmtChars,
+    /// `core::write!(w, "{}", c)` for every `char` of the text (the `fmt::Write::write_char` path)
+    FmtChars,
+    /// `Writer::write_list_element(first word, rest, 12)` - text "name rest of text"
+    ListElem,
+    /// `Writer::write_title(text)`
+    Title,
 }
 
 impl WKind {
-    pub const ALL: [WKind; 6] = [
+    pub const ALL: [WKind; 10] = [
         WKind::Str,
         WKind::Ln,
         WKind::Ufmt,
         WKind::UfmtLn,
         WKind::Fmt,
         WKind::FmtLn,
+        WKind::UfmtChars,
+        WKind::FmtChars,
+        WKind::ListElem,
+        WKind::Title,
     ];
     fn tag(self) -> &'static str {
         match self {
@@ -40,6 +52,10 @@ impl WKind {
             WKind::UfmtLn => "UL",
             WKind::Fmt => "F",
             WKind::FmtLn => "FL",
+            WKind::UfmtChars => "UC",
+            WKind::FmtChars => "FC",
+            WKind::ListElem => "LE",
+            WKind::Title => "T",
         }
     }
     fn from_tag(t: &str) -> Option<Self> {
@@ -50,12 +66,48 @@ impl WKind {
             "UL" => WKind::UfmtLn,
             "F" => WKind::Fmt,
             "FL" => WKind::FmtLn,
+            "UC" => WKind::UfmtChars,
+            "FC" => WKind::FmtChars,
+            "LE" => WKind::ListElem,
+            "T" => WKind::Title,
             _ => return None,
         })
     }
     /// Does this call append a line feed to its text?
     pub fn appends_lf(self) -> bool {
         matches!(self, WKind::Ln | WKind::UfmtLn | WKind::FmtLn)
+    }
+}
+
+pub const LIST_ELEM_WIDTH: usize = 12;
+
+impl WCall {
+    /// For `ListElem`: (name, description) = text split at its first space
+    pub fn list_parts(&self) -> (&str, &str) {
+        match self.text.split_once(' ') {
+            Some((a, b)) => (a, b),
+            None => (self.text.as_str(), ""),
+        }
+    }
+
+    /// The text this call asks the library to put on the wire (before LF -> CR LF conversion)
+    pub fn spec_text(&self) -> String {
+        match self.kind {
+            WKind::ListElem => {
+                let (name, desc) = self.list_parts();
+                let mut s = String::from("  ");
+                s.push_str(name);
+                for _ in name.len()..LIST_ELEM_WIDTH {
+                    s.push(' ');
+                }
+                s.push_str("  ");
+                s.push_str(desc);
+                s.push('\n');
+                s
+            }
+            k if k.appends_lf() => format!("{}\n", self.text),
+            _ => self.text.clone(),
+        }
     }
 }
 
